@@ -55,7 +55,7 @@ pub fn run(ctx: &Ctx, sink: &mut Sink) {
     let mut srcs: Vec<String> = pool_sources().iter().map(|s| s.to_string()).collect();
     // seeded extra data values, injected directly
     let mut r = Rng::derive(ctx.seed, "c12-extra", 0);
-    let n_extra = ctx.budget(60, 140) as usize;
+    let n_extra = ctx.budget(60, 400) as usize;
     let mut names = Vec::new();
     let mut vals = Vec::new();
     for (i, s) in srcs.iter().enumerate() {
@@ -247,7 +247,7 @@ pub fn run(ctx: &Ctx, sink: &mut Sink) {
         (0..n).filter(|i| matches!(&m.vals[*i], RVal::List(l) if l.iter().all(|x| matches!(x, RVal::Num(_))))).collect(),
         (0..n).collect(),
     ];
-    let rounds = ctx.budget(2000, 40_000);
+    let rounds = ctx.budget(2000, 400_000);
     for round in 0..rounds {
         if !ctx.mine(round) {
             continue;
